@@ -1,5 +1,5 @@
 (* Executable model of packaging.licenses.canonicalize_license_expression (src/packaging/licenses/__init__.py as it is after
-   the four fix: commits 802ff3e 49e8c51 7e1baa1 9cd3216).  Definitions only; the proofs are in LicLex.v LicCode.v LicIdem.v.
+   the five fix: commits 802ff3e 49e8c51 7e1baa1 9cd3216 9992710).  Definitions only; the proofs are in LicLex.v LicCode.v LicIdem.v.
    The function is mirrored statement by statement; the tables LICENSES / EXCEPTIONS are parameters (lists of (key, id)),
    instantiated by the generated coq/Gen/SpdxTable.v in LicRun.v. *)
 From Coq Require Import List NArith Bool.
@@ -13,12 +13,13 @@ Fixpoint streq (a b : str) : bool :=
 Fixpoint prefixb (p s : str) : bool :=                      (* s.startswith(p) *)
   match p, s with [], _ => true | x :: p', y :: s' => (x =? y) && prefixb p' s' | _ :: _, [] => false end.
 Definition nonemptyb (s : str) : bool := match s with [] => false | _ => true end.
+Definition asciib (c : char) : bool := c <? 128.           (* str.isascii() = forallb asciib *)
 Definition last_is (c0 : char) (s : str) : bool := match rev s with c :: _ => c =? c0 | [] => false end.   (* s.endswith(chr c0) *)
 
 (* str.lower(): ASCII exact; the only non-ASCII code points whose lower-casing contains an ASCII character are U+0130 and U+212A
    (checked over all code points by the harness on every run); every other non-ASCII code point is left alone here - the real
    lower() may map it to other non-ASCII, non-whitespace code points, which changes nothing below: a token holding one is in no
-   table (all keys are ASCII), is no operator, and fails license_ref_allowed. *)
+   table (all keys are ASCII), is no operator, fails original_token.isascii() and fails license_ref_allowed. *)
 Definition lower_char (c : char) : str :=
   if (65 <=? c) && (c <=? 90) then [c + 32]
   else if c =? 304 then [105; 775]
@@ -149,7 +150,7 @@ Fixpoint final_pass (norm_rev : list str) (after_license : bool) (pairs : list (
   | [] => POk (rev norm_rev)
   | (original, token) :: r =>
       if match norm_rev with h :: _ => streq h W_WITH | [] => false end then
-        if negb (mem token excs) then PErr
+        if negb (mem token excs) || negb (forallb asciib original) then PErr
         else match lookup token excs with
              | Some id => final_pass (id :: norm_rev) false r
              | None => PCrash
@@ -166,7 +167,7 @@ Fixpoint final_pass (norm_rev : list str) (after_license : bool) (pairs : list (
           if negb (ref_match ref) then PErr
           else final_pass ((licenseref_prefix ++ skipn (length licenseref_prefix) ref ++ suffix) :: norm_rev) true r
         else
-          if negb (mem final_token lics) then PErr
+          if negb (mem final_token lics) || negb (forallb asciib original) then PErr
           else match lookup final_token lics with
                | Some id => final_pass ((id ++ suffix) :: norm_rev) true r
                | None => PCrash
